@@ -200,11 +200,97 @@ def rule_helping(ctx, rep):
     pat.require(keep, "helping instances vanished")
 
 
+# loops written in these functions may legitimately restart without an atomic update of their own; one reason each
+RETRY_EXEMPT = {
+    "cds_lfht_add_replace": "restarts only when the node just found was concurrently removed (its REMOVED flag was observed by _cds_lfht_replace); "
+                            "the next _cds_lfht_add pass helps unlink that node (cmpxchg) or no longer meets it",
+}
+
+
+def back_edges(f):
+    out = []
+    for b in f.blocks:
+        for s in b.succ:
+            if f.bdom(s, b.id):
+                out.append((b.id, s))
+    return out
+
+
+def natural_loop(f, latch, hdr):
+    body = {hdr, latch}
+    st = [latch]
+    while st:
+        x = st.pop()
+        if x == hdr:
+            continue
+        for p in f.blocks[x].pred:
+            if p not in body:
+                body.add(p)
+                st.append(p)
+    return body
+
+
+def is_traversal_edge(f, latch, hdr):
+    """the back edge advances a cursor: some phi of the header receives, along this edge, a value derived from a load
+    through that same phi (iter = iter->next)"""
+    for p in f.blocks[hdr].insts:
+        if p.op != "phi":
+            continue
+        for v, blk in p.d["inc"]:
+            if blk != latch:
+                continue
+            e = ir.expr(f, v, 8)
+            tag = "phi#%d" % p.id
+            if ir.expr_contains(e, lambda z: z[0] == "load" and isinstance(z[1], str) and tag in z[1]):
+                return True
+    return False
+
+
+def is_atomic_update(f, i):
+    e = mm.effect_of(i) if i.op in ("rmw", "cmpxchg", "asm") else None
+    return e is not None and e.ap is not None and e.is_rmw() and e.locked and not is_local(f, e.ap)
+
+
+def rule_retry(ctx, rep):
+    """Lock-free retry discipline: an operation goes round its retry loop again only after an atomic update of shared
+    memory in that iteration - its own cmpxchg (which failed because another operation succeeded, or succeeded and left more to
+    do) or a helping cmpxchg.  A restart edge reachable from the loop header without any atomic update is a wait on another
+    thread (e.g. 'node already owned by a remover: retry' spins for as long as that remover is suspended)."""
+    n = 0
+    for lib, name in LOCKFREE:
+        f = ctx.fn(lib, name)
+        rep.touch(f)
+        for latch, hdr in back_edges(f):
+            t = f.blocks[latch].insts[-1]
+            written_in = t.scope_chain[0]
+            inst_name = "%s.loop@%s" % (name, written_in)
+            if is_traversal_edge(f, latch, hdr):
+                continue
+            n += 1
+            if written_in in RETRY_EXEMPT:
+                rep.ok("C17.retry", inst_name + ".exempt", "hand-confirmed exception: " + RETRY_EXEMPT[written_in], [t.where()])
+                continue
+            body = natural_loop(f, latch, hdr)
+            eok = lambda term, succ, body=body, hdr=hdr: succ in body and succ != hdr
+            h0 = f.blocks[hdr].insts[0]
+            hit, parent = f.reach([h0], [t], avoid=lambda i: is_atomic_update(f, i), edge_ok=eok, include_start=True)
+            rep.paths += 1
+            if hit is None:
+                rep.ok("C17.retry", inst_name + ".l%d" % t.line, "every way round the retry loop passes an atomic update (cmpxchg/xchg/locked RMW) of shared memory", [t.where()])
+            else:
+                from ..core import path_sites
+                rep.bad("C17.retry", inst_name + ".l%d" % t.line,
+                        "the retry loop written in %s can go round again without any atomic update of shared memory: it neither helps nor lost a race in that "
+                        "iteration, so it waits for another thread (not lock-free)" % written_in, path_sites(f.path_to(hit, parent)))
+    pat.require(n >= 12, "only %d retry back-edges found in the lock-free operations (hand-confirmed: >= 12)" % n)
+
+
 RULES = [
     ("C17.helping", rule_helping),
     ("C17.waitfree", rule_waitfree),
     ("C17.readers", rule_readers),
     ("C17.lockfree", rule_lockfree),
     ("C17.nonblocking", rule_nonblocking),
+    ("C17.retry", rule_retry),
 ]
 FLOORS = {}
